@@ -80,6 +80,8 @@ type fragSpec struct {
 	Params      []string // "name type" in Go syntax
 	Results     []string // names of parameters / variables returned, in order
 	EarlyReturn string   // text of the return statements inside the fragment that mean "the fragment ends here"
+	Case        string   // instead of First/Last: the whole body of the case clause with this label text
+	ErrLast     bool     // the fragment can fail: a `return .., err` inside (err not nil) is its error result
 }
 
 var specs = []spec{
@@ -126,6 +128,8 @@ var specs = []spec{
 			{File: "shard/index/utils.go", Name: "opDelete", As: "opDelete"}, {File: "shard/index/utils.go", Name: "opSkip", As: "opSkip"}}},
 	distSetSpec("Len"), distSetSpec("AddWithLimit"), distSetSpec("Add"), distSetSpec("AddAlreadyUnique"), distSetSpec("Sort"),
 	flatStepSpec,
+	invArm("gt", "models.OperatorGreaterThan"), invArm("ge", "models.OperatorGreaterOrEq"), invArm("lt", "models.OperatorLessThan"),
+	invArm("le", "models.OperatorLessOrEq"), invArm("inRange", "models.OperatorInRange"),
 	// C18: a parameter struct whose Validate is integer range checks only
 	{File: "models/quantizer.go", Func: "Validate", Recv: "ProductQuantizerParameters", Module: "Validate", Ext: true,
 		Structs: []structSpec{{File: "models/quantizer.go", Name: "ProductQuantizerParameters"}}},
@@ -143,6 +147,16 @@ var flatStepSpec = spec{File: "shard/index/flat/flat.go", Func: "Search", Recv: 
 		Params:  []string{"distFn vectorstore.PointIdDistFn", "point vectorstore.VectorStorePoint", "res []models.SearchResult", "res_cap int"},
 		Results: []string{"res", "res_cap"}}}
 
+
+// one arm of the operator switch of inverted.IndexInverted[T].Search: what it does to start / end / inclusive
+// (the generic value type T is opaque; toByteSortable and the %v text of a T are abstract)
+func invArm(name, label string) spec {
+	return spec{File: "shard/index/inverted/inverted.go", Func: "Search", Recv: "IndexInverted", Module: "InvertedSearch", Ext: true, Name: "Search_" + name,
+		Opaque: []string{"T=T"}, Prims: []string{"toByteSortable=func(v T) ([]byte, error)", "fmt_T=func(v T) string"},
+		Frag: &fragSpec{Case: label, ErrLast: true,
+			Params:  []string{"queryKey []byte", "endQuery T", "start []byte", "end []byte", "inclusive bool"},
+			Results: []string{"start", "end", "inclusive"}}}
+}
 
 // vamana.DistSet: the point (an interface with Id()) and the visited set (an interface with the mutating
 // CheckAndVisit) are opaque, float32 distances are an abstract type with `<`, cap(ds.items) is a ghost field
@@ -1233,6 +1247,9 @@ func findFunc(f *ast.File, sp spec) *ast.FuncDecl {
 			if st, ok := rt.(*ast.StarExpr); ok {
 				rt = st.X
 			}
+			if ix, ok := rt.(*ast.IndexExpr); ok { // receiver of a generic type: T[P]
+				rt = ix.X
+			}
 			if id, ok := rt.(*ast.Ident); ok && id.Name == sp.Recv {
 				return fd
 			}
@@ -1376,6 +1393,7 @@ func main() {
 	mods := map[string][]genFunc{}
 	extMods := map[string]bool{}
 	failedMods := map[string]bool{}
+	seenMod := map[string]bool{}
 	knownFuncs := map[string]map[string]*xty{}
 	var order []string
 	for _, sp := range specs {
@@ -1389,9 +1407,10 @@ func main() {
 			}
 			files[sp.File] = f
 		}
-		if _, ok := mods[sp.Module]; !ok {
+		if _, ok := mods[sp.Module]; !ok && !seenMod[sp.Module] {
 			order = append(order, sp.Module)
 		}
+		seenMod[sp.Module] = true
 		var gs []genFunc
 		func() {
 			defer func() {
